@@ -11,12 +11,18 @@ verus! {
 #[verifier::external_body]
 pub struct ExRegex(regex::Regex);
 
+/// `Option<T>::as_deref` (T: Deref): the referent behind the option, if any
+pub uninterp spec fn as_deref_rel<T: core::ops::Deref>(o: &Option<T>, r: Option<&T::Target>) -> bool;
+pub assume_specification<T: core::ops::Deref>[ Option::<T>::as_deref ](o: &Option<T>) -> (r: Option<&T::Target>)
+    ensures as_deref_rel::<T>(o, r);
+pub broadcast axiom fn ax_as_deref_box_regex(o: &Option<Box<regex::Regex>>, r: Option<&regex::Regex>)
+    ensures #[trigger] as_deref_rel::<Box<regex::Regex>>(o, r) <==> (match (*o, r) { (Some(b), Some(t)) => *t == *b, (None, None) => true, _ => false });
 pub mod log_specification {
     use super::*;
     use super::level_axioms::*;
     use log::LevelFilter;
     use regex::Regex;
-    broadcast use group_level_axioms, group_pat_seq;
+    broadcast use group_level_axioms, group_pat_seq, ax_as_deref_box_regex;
 
     /// the length of a string in bytes (UTF-8): `String::len`. Trusted facts: a proper prefix is shorter in bytes too.
     pub uninterp spec fn byte_len(s: Seq<char>) -> nat;
@@ -207,6 +213,10 @@ pub mod log_specification {
     //@ fn src/log_specification.rs impl LogSpecification / fn update_from
     //@   props C05,C02
     //@   ens[update_from.post] final(self).mfs() == other.mfs() && final(self).tf() == other.tf()
+    //@ fn src/log_specification.rs impl LogSpecification / fn text_filter
+    //@   ret r
+    //@   props C02
+    //@   ens[text_filter.post] match (r, self.tf()) { (Some(re), Some(b)) => *re == *b, (None, None) => true, _ => false }
     //@ fn src/log_specification.rs impl LogSpecification / fn module_filters
     //@   ret r
     //@   props C02
